@@ -2,6 +2,8 @@ def classify(sig, what):
     parts = sig.split(' | ')
     target, kind, msg = parts[0], parts[1], parts[-1]
     body = ' | '.join(parts[2:-1])
+    if 'nondeterministic outcome' in sig:
+        return 'ND1: the generator output for this target is not a function of its input: the same document sometimes yields code that builds and sometimes code that does not (map-iteration order inside the generator, see C07); observed e.g. on two-hop $ref chains (m.P == nil on a non-pointer alias) and on cli imports.'
     if target == 'model':
         if 'invalid constant type' in msg: return 'M1: an enum on a string with format date/date-time (or another strfmt type) is generated as Go constants of a struct type (strfmt.Date): "invalid constant type"; generate model exits 0 and the package does not compile.'
         if 'mismatched types' in msg: return 'M2: a property reached through a two-hop $ref chain to a primitive alias is treated as nullable by the validation template (m.P == nil) although its Go type is a named non-pointer type: "mismatched types"; exits 0, does not compile.'
